@@ -374,12 +374,14 @@ func (g *genCtx) genPropose() *op {
 	}
 	var stop int64
 	tag := "stop-ahead"
+	past := false
 	if g.e2e {
 		// the block at height tip+1 may already be under construction: stay clear of it
 		stop = g.height + 2 + r.Int63n(5)
 		if r.Intn(100) < 15 {
-			stop = 1 + r.Int63n(g.height+1)
+			stop = 1 + r.Int63n(g.height) // strictly below the next block's height
 			tag = "stop-in-the-past"
+			past = true
 		}
 	} else {
 		stop = 2 + r.Int63n(10)
@@ -395,7 +397,7 @@ func (g *genCtx) genPropose() *op {
 		trig = stop - r.Int63n(2)
 		tag += "+trigger-not-after-stop"
 	}
-	if g.e2e && tag[:10] == "stop-in-th" && trig > 0 && trig <= g.height+1 {
+	if g.e2e && past && trig > 0 && trig <= g.height+2 {
 		trig = 0
 	}
 	tk := r.Intn(3)
